@@ -15,7 +15,7 @@ use std::sync::OnceLock;
 /// (DESIGN.md section 7, D2/D3): until then invalid UTF-8 pre-states are C08's business only.
 pub const DIRTY_INVALID_UTF8: bool = true;
 /// Dotted stems with the `.txtpp.ext` shape (D5) are C11's business until repaired.
-pub const DOTTED_STEMS: bool = false;
+pub const DOTTED_STEMS: bool = true;
 
 fn dags4() -> &'static Vec<(usize, Vec<(usize, usize)>)> {
     static D: OnceLock<Vec<(usize, Vec<(usize, usize)>)>> = OnceLock::new();
